@@ -14,6 +14,7 @@ d-memo  caches on the Hamiltonian construction path are keyed by point and degre
 d-facade (round 3)  LibrationPoint.hamiltonian_system / .hamiltonian return the requested form at the requested degree (model centre manifold)
 c(v) (round 4)  velocity consistency of the local -> synodic map: d/dt(mapped position) along Hamilton's equations = s * mapped velocity with one sign s (known findings: L1, L2 give (-,-,+));
    b-gamma / d-evaluate: C04.c solver exits and C06.c evaluate re-filed
+d (round 5)  the pipeline registry returns, for every degree, a pipeline of that degree with nothing pre-filled from another degree
 """
 from __future__ import annotations
 
@@ -61,6 +62,7 @@ def run(tier):
     _c_accelerations(chk)
     _d_wiring(chk)
     _d_facade(chk)
+    _d_pipeline_per_degree(chk)
     # the public facade binds every argument to the service parameter it is meant for (nominal swap rule, rules/common.py)
     from . import common as _common
     _common.facade_bindings(chk, "C07.d-facade", ['hiten.system.libration', 'hiten.system.center'], floor=10)
@@ -266,6 +268,41 @@ def _c_accelerations(chk):
                       + (" (pure reflection X -> -X: the Coriolis term changes sign)" if kind == "collinear" else ""),
                       sample=f"{label}: D(DP.X_H).X_H == _crtbp_accel(L(c))[3:6] (3 identities)")
     chk.count("functions partially evaluated", 5)
+
+
+def _d_pipeline_per_degree(chk):
+    """The degree-N expansion of a point is computed by the degree-N pipeline, whatever other degrees were asked for before: the pipeline
+    registry (_HamiltonianPipelineService.get) is interpreted on a model point for which a degree-8 pipeline with a cached 'physical' form already
+    exists; the degree-5 pipeline it returns must be a new pipeline of (point, 5) with nothing pre-filled in its cache, a second request must return
+    the same object, and the degree-8 pipeline must be untouched."""
+    HS_ = "hiten.algorithms.types.services.hamiltonian"
+    mod, cls = ri.find_def(HS_, "_HamiltonianPipelineService")
+    point = SymObj(None, {}, "point")
+    src_ham = SymObj(None, {"poly_H": [sp.Symbol(f"H8_{d}") for d in range(9)], "ndof": 3, "degree": 8, "dynamics": SymObj(None, {"psi": sp.Symbol("PSI")}, "dyn")}, "physical(8)")
+    made = []
+
+    def new_pipeline(ip_, a, k):
+        o = SymObj(None, {"_point": a[0], "_degree": a[1], "degree": a[1], "_hamiltonian_cache": {}, "_generating_function_cache": {}}, f"pipeline{len(made)}")
+        made.append(o)
+        return o
+
+    p8 = SymObj(None, {"_point": point, "_degree": 8, "degree": 8, "_hamiltonian_cache": {"physical": src_ham}, "_generating_function_cache": {}}, "pipeline(8)")
+    svc = SymObj(ClassRef(mod, cls), {"_pipelines": {id(point): {8: p8}}, "_conversion": sp.Symbol("CONV")}, "registry")
+    ip = Interp(overrides={"HamiltonianPipeline": new_pipeline, "_polynomial_zero_list": lambda ip_, a, k: [np.zeros(1, dtype=object) for _ in range(int(a[0]) + 1)]})
+    try:
+        p5 = ip.apply(ip.getattr(svc, "get"), [point, 5], {})
+        p5b = ip.apply(ip.getattr(svc, "get"), [point, 5], {})
+        p8b = ip.apply(ip.getattr(svc, "get"), [point, 8], {})
+    except OutsideFragment as exc:
+        raise AnalysisError(f"_HamiltonianPipelineService.get outside fragment: {exc}")
+    chk.count("functions partially evaluated")
+    ok = len(made) == 1 and p5 is made[0] and p5.attrs.get("_degree") == 5 and p5.attrs.get("_point") is point and p5.attrs.get("_hamiltonian_cache") == {} \
+        and p5b is p5 and p8b is p8 and list(p8.attrs["_hamiltonian_cache"]) == ["physical"] and p8.attrs["_hamiltonian_cache"]["physical"] is src_ham
+    chk.check(ok, "C07.d", f"{HS_}::_HamiltonianPipelineService.get[degree 5 after degree 8]",
+              f"after a degree-8 pipeline exists, get(point, 5) returns {p5!r} with cache {list((p5.attrs.get('_hamiltonian_cache') or {}).keys()) if isinstance(p5, SymObj) else None} "
+              f"({len(made)} pipeline(s) built): the degree-5 forms are not computed by a degree-5 pipeline of their own (a 'physical' form derived from another degree's "
+              f"polynomial must be the full degree-5 truncation - nothing checks that - so none may be pre-filled)",
+              sample="get(point, 5) after (point, 8): a new HamiltonianPipeline(point, 5) with an empty cache; repeated get returns it; (point, 8) untouched")
 
 
 def _d_facade(chk):
